@@ -440,7 +440,8 @@ def opPanelForces : Op K := fun n a =>
 /-- core of the `VLMStates` pipeline on materialised data: returns (circulations, panel forces, matrix rows, rhs).
     `nrmOverride`: when given, these panel normals (global panel order) replace the ones computed from the meshes
     (used by the Prandtl–Glauert pipeline, whose normals are transformed, not recomputed). -/
-def vlmCore (surfs : List (VLM.Surf K)) (f : VLM.Flow K) (nrmOverride : Option (Nat → V3 K) := none) :
+def vlmCore (surfs : List (VLM.Surf K)) (f : VLM.Flow K) (nrmOverride : Option (Nat → V3 K) := none)
+    (onsetOverride : Option (Nat → V3 K) := none) :
     Array K × Array (V3 K) × Array (Array K) × Array K :=
   let N := VLM.totalPanels surfs
   let vms : Array (Array K) := (surfs.map fun s =>
@@ -470,11 +471,16 @@ def vlmCore (surfs : List (VLM.Surf K)) (f : VLM.Flow K) (nrmOverride : Option (
       | none => 0
   let A : Array (Array K) := locs.mapIdx fun r (s, i, j) =>
     (Array.range N).map fun m => V3.dot (infl (VLM.collPt s i j) m) (nrm r)
-  let b : Array K := locs.mapIdx fun r (s, i, j) => -(V3.dot (VLM.onset f (VLM.collPt s i j)) (nrm r))
+  let ons : Nat → V3 K := match onsetOverride with
+    | some g => g
+    | none => fun m => match locs[m]? with
+      | some (s, i, j) => VLM.onset f (VLM.collPt s i j)
+      | none => 0
+  let b : Array K := locs.mapIdx fun r _ => -(V3.dot (ons r) (nrm r))
   let g := gaussSolve N A b
   let gamma := fun m => at_ g m
   let forces : Array (V3 K) := locs.mapIdx fun m (s, i, j) =>
-    let vel := VLM.onset f (VLM.collPt s i j)
+    let vel := ons m
       + V3.sumTo N (fun k => V3.smul (gamma k) (infl (VLM.forcePt s i j) k))
     V3.smul (f.rho * VLM.horseshoe surfs gamma m) (V3.cross vel (VLM.boundVec s i j))
   (g, forces, A, b)
@@ -494,26 +500,32 @@ def opVLMStates : Op K := fun n a =>
     for r in A do o := o ++ r
     return o ++ b
 
-/-- `CompressibleVLMStates` (no rotation rates): rotate meshes and normals into the wind frame, stretch, solve the
+/-- `CompressibleVLMStates`: rotate meshes, normals and rotational velocities into the wind frame, stretch / scale, solve the
     incompressible problem at alpha = beta = 0, unscale the forces, rotate back.
-    ints: ns (nx ny sym left ground)* ; floats: alpha beta v rho Mach meshes… → panel forces[N,3] -/
+    ints: rotational, ns (nx ny sym left ground)* ; floats: alpha beta v rho Mach omega[3] cg[3] meshes… → panel forces[N,3] -/
 def opCompressibleStates : Op K := fun n a =>
-  let (surfs, _) := vlmSurfs n 0 a 5
+  let rot := flag n 0
+  let (surfs, _) := vlmSurfs n 1 a 11
   let al := deg2rad (at_ a 0); let be := deg2rad (at_ a 1)
   let B := PG.betaPG (at_ a 4)
+  let f : VLM.Flow K := { alpha := at_ a 0, beta := at_ a 1, v := at_ a 2, rho := at_ a 3, omega := pts a 5 0, cg := pts a 8 0, h := 0,
+                          rotational := rot }
   -- transformed surfaces (materialised)
   let tsurfs : List (VLM.Surf K) := surfs.map fun s =>
     let arr := outMesh #[] s.nx s.ny (PG.pgSurf al be B s).mesh
     { s with mesh := mesh arr 0 s.ny }
-  -- normals of the ORIGINAL meshes, rotated and scaled (x * beta), not renormalised
-  let nrmArr : Array (V3 K) := Id.run do
+  -- normals of the ORIGINAL meshes, rotated and scaled (x * beta), not renormalised; onset velocities from the ORIGINAL
+  -- collocation points
+  let (nrmArr, onsArr) : Array (V3 K) × Array (V3 K) := Id.run do
     let mut o : Array (V3 K) := #[]
+    let mut w : Array (V3 K) := #[]
     for s in surfs do
       for i in [0:s.nx-1] do
-        for j in [0:s.ny-1] do o := o.push (PG.pgNormal al be B s i j)
-    return o
-  let f : VLM.Flow K := { alpha := 0, beta := 0, v := at_ a 2, rho := at_ a 3, omega := 0, cg := 0, h := 0, rotational := false }
-  let (_, forces, _, _) := vlmCore tsurfs f (some fun m => nrmArr.getD m 0)
+        for j in [0:s.ny-1] do
+          o := o.push (PG.pgNormal al be B s i j)
+          w := w.push (PG.pgOnset f al be B (VLM.collPt s i j))
+    return (o, w)
+  let (_, forces, _, _) := vlmCore tsurfs (PG.pgFlow f) (some fun m => nrmArr.getD m 0) (some fun m => onsArr.getD m 0)
   Id.run do
     let mut o : Array K := #[]
     for v in forces do o := pushV3 o (PG.fromWind al be (PG.unscaleForce B v))
